@@ -16,7 +16,9 @@
           before any Close call began is accepted.
    X08.c  Trace and Close never wait for the writer: they only take the mutex, and the
           writer goroutine never holds the mutex while it writes.  Every Trace / Close
-          call returns even if the writer is stuck in Write forever.
+          call returns even if the writer is stuck in Write forever.  (On real traces
+          this is demanded of Trace; a Close that has taken effect may wait for the
+          writer's exit - the repair of finding X08-F1 - TracerTrace!TQuiet.)
    X08.d  No lost wake-up: whenever the writer is parked on the wake-up channel, the
           channel is empty and open and no producer is between its append and its
           wake-up send, the shared buffer is empty (everything accepted is written
